@@ -34,17 +34,23 @@ def cheat_worlds():
                                            sync=(("start", "wait", "x-started"), ("end", "set", "b-done")))],
                                 "inner.do": [S(deps=["s"], out="file")]}),
                ["a", "b", "c", "x", "inner"], ["a", "b", "c"])
-    return w1, w2, w3
+    w4 = World("cheat-then-nested-j2", {"s": ["0", "1"]},
+               dict(common_, **{"b.do": [S(seq=(("ifchange", ("x",)), ("redo-j2", ("inner",))),
+                                           sync=(("start", "wait", "x-started"), ("end", "set", "b-done")))],
+                                "inner.do": [S(deps=["s"], out="file")]}),
+               ["a", "b", "c", "x", "inner"], ["a", "b", "c"])
+    return w1, w2, w3, w4
 
 
 def scenarios(tier):
     w = SC.W()
     q = tier == "quick"
     L = []
-    cw1, cw2, cw3 = cheat_worlds()
+    cw1, cw2, cw3, cw4 = cheat_worlds()
     L.append((SC.scn("own-log-cheat-uptodate-j2", cw1, ["redo -j2 b a c"], visible=VIS, limit=2, log_mode=True), 1 if q else 2))
     L.append((SC.scn("own-log-cheat-builds-j2", cw2, ["redo -j2 b a c"], visible=VIS, limit=2, log_mode=True), 1 if q else 2))
     L.append((SC.scn("own-log-cheat-then-fresh-redo-j2", cw3, ["redo -j2 b a c"], visible=VIS, limit=3, log_mode=True), 0 if q else 1))
+    L.append((SC.scn("own-log-cheat-then-nested-j2", cw4, ["redo -j2 b a c"], visible=VIS, limit=4, log_mode=True), 0 if q else 1))
     # the same under an inherited jobserver: the pipe must hold exactly N-1 tokens and no cheat byte afterwards
     L.append((SC.scn("inherit-log-cheat-uptodate-n2", cw1, ["redo-ifchange b a c"], visible=VIS, jobserver=2, limit=2, log_mode=True), 0 if q else 1))
     L.append((SC.scn("inherit-log-cheat-builds-n2", cw2, ["redo-ifchange b a c"], visible=VIS, jobserver=2, limit=2, log_mode=True), 0 if q else 1))
